@@ -89,13 +89,20 @@ def non_interference(ck, sh, mm, gname):
         mi = catalogue.build(mm, gname)
         mr = catalogue.build(mm, gname, media=media_list(mm, [(conc['eps1'], conc['sigma1'], 0.0, conc['u']),
                                                               (conc['eps2'], conc['sigma2'], conc['h2'], None)], 'circular', radials=(8, 0.001)))
+        V, ZL = complex(conc['V']), complex(conc['ZL'])
+        if V == 0:
+            V = 1 + 0.5j
         for m in (mi, mr):
-            m.register_source(mm.Excitation(1 + 0.5j), 0)
+            m.register_source(mm.Excitation(V), 0)
+            m.register_load(mm.Impedance_Load(ZL), 0)
+            m.register_load(mm.Impedance_Load(ZL), len(m.pulses) - 1)
             m.compute()
-        if np.abs(np.asarray(mi.current) - np.asarray(mr.current)).max() <= 1e-12 * np.abs(np.asarray(mi.current)).max():
+        ci, cr = np.asarray(mi.current), np.asarray(mr.current)
+        if np.abs(ci - cr).max() <= 1e-12 * np.abs(ci).max():
             return None
-        return ('C11:non-interference', '%s: currents over real ground (eps %r, sigma %r) differ from those over ideal ground'
-                % (gname, conc['eps1'], conc['sigma1']), dict(kind='non-interference'))
+        return ('C11:non-interference', '%s with a load %r on its grounded feed pulse: currents over real ground (eps %r, sigma %r) differ from those over '
+                'ideal ground (feed impedance %r vs %r)' % (gname, ZL, conc['eps1'], conc['sigma1'], mr.sources[0].impedance, mi.sources[0].impedance),
+                dict(kind='non-interference'))
     prove_paths(ck, 'non-interference-%s' % gname, fn, goals, replay, max_paths=8, timeout_ms=30000)
 
 
